@@ -9,7 +9,7 @@ from .build import VERIF
 
 
 def table():
-    rows = {1: [], 2: [], 3: []}
+    rows = {1: [], 2: [], 3: [], 4: []}
     for d in sorted(glob.glob(os.path.join(VERIF, 'seeded', 'S*-C*'))):
         m = json.load(open(os.path.join(d, 'meta.json')))
         rnd = m.get('round', 1)
@@ -23,7 +23,7 @@ def table():
             own.get('verdict', 'not run') + ((' (also run: ' + '; '.join(others) + ')') if others else ''),
             ', '.join(qs[:4]) + (' …' if len(qs) > 4 else '')))
     out = []
-    for rnd in (1, 2, 3):
+    for rnd in (1, 2, 3, 4):
         if not rows[rnd]:
             continue
         out.append('**Round %d**\n' % rnd)
